@@ -133,9 +133,20 @@ def compute(prog, rep):
     bg = builder(prog, fn, inline=False, guarded=True)
     cs = [s for s in cfg.all_stmts() if isinstance(s, ast.Assign) and isinstance(s.targets[0], ast.Attribute) and s.targets[0].attr == "coordinates"]
     two = CMP("==", nd, ("const", 2))
-    LST = ("list", ())
-    one = CMP("==", ("call", G("len"), (LST,), ()), ("const", 1))
-    first = ("sub", LST, ("const", 0))
+    # the list of per-region coordinate sets: an (unmodelled) empty list, or - a list filled by one append in the label loop
+    # reads as a comprehension - the comprehension over the label loop; compared structurally, because guarded and plain
+    # builders spell the terms nested inside it differently
+    lab_lid = f"{lab_loop[0].lineno}:{lab_loop[0].col_offset}" if lab_loop else None
+
+    def is_lst(x):
+        return x == ("list", ()) or (x[0] == "comp" and x[1] == "list" and x[3] == lab_lid and not x[5])
+
+    def one_region(l):
+        return l[0] == "cmp" and l[1] == "==" and l[3] == ("const", 1) and l[2][0] == "call" and l[2][1] == G("len") and len(l[2][2]) == 1 and is_lst(l[2][2][0])
+
+    def is_first(x):
+        return x[0] == "sub" and x[2] == ("const", 0) and is_lst(x[1])
+
     kinds = {}
     from vstat.guards import PathConditions
     pcs_g = PathConditions(fn, bg)
@@ -146,27 +157,27 @@ def compute(prog, rep):
             # polarity of "exactly one component" on this alternative; flags set from the same test count as the test itself
             pol = set()
             for l in pc:
-                if l == one:
+                if one_region(l):
                     pol.add(True)
-                elif l == ("not", one):
+                elif l[0] == "not" and one_region(l[1]):
                     pol.add(False)
                 else:
-                    f = _flag_of(l, one, bg, fn)
+                    f = _flag_of(l, one_region, bg, fn)
                     if f is not None:
                         pol.add(f)
             if pol == {True, False}:
                 continue  # the guards of this alternative contradict each other
             is_one, not_one = True in pol, False in pol
             if not_one:
-                kinds.setdefault("multi", []).append((st, t == LST, t))
+                kinds.setdefault("multi", []).append((st, is_lst(t), t))
             elif two in pc:
                 inner = t[1] if t[0] == "attr" and t[2] == "T" else t
                 ok = t[0] == "attr" and t[2] == "T" and inner[0] == "call" and inner[1] == G("numpy.array") and inner[2] and inner[2][0][0] == "call" \
                     and inner[2][0][1] == ("func", "virocon.utils.sort_points_to_form_continuous_line") and dict(inner[2][0][3]).get("search_for_optimal_start") == ("const", True) \
-                    and inner[2][0][2] == (("star", first),)
+                    and len(inner[2][0][2]) == 1 and inner[2][0][2][0][0] == "star" and is_first(inner[2][0][2][0][1])
                 kinds.setdefault("2d", []).append((st, ok and is_one, t))
             elif ("not", two) in pc:
-                ok = t == ("attr", ("call", G("numpy.array"), (first,), ()), "T")
+                ok = t[0] == "attr" and t[2] == "T" and t[1][0] == "call" and t[1][1] == G("numpy.array") and len(t[1][2]) == 1 and not t[1][3] and is_first(t[1][2][0])
                 kinds.setdefault("nd", []).append((st, ok and is_one, t))
             else:
                 kinds.setdefault("?", []).append((st, False, t))
@@ -185,10 +196,10 @@ def _flag_of(lit, test, bg, fn):
         m = {k: v for k, v in core[1]}
         if len(m) == 2 and set(m.values()) == {("const", True), ("const", False)}:
             for k, v in m.items():
-                if test in k:
+                if any(test(x) for x in k):
                     val = v[1]
                     return (not val) if neg else val
-                if ("not", test) in k:
+                if any(x[0] == "not" and test(x[1]) for x in k):
                     val = not v[1]
                     return (not val) if neg else val
     return None
